@@ -366,7 +366,7 @@ func (bkt *Bucket) checkAndSet(ki *KeyInfo, v *Payload) error {
 
 	if payload != nil {
 		oldv = payload.Ver
-		if oldv > 0 && v.ValueHash == payload.ValueHash {
+		if oldv > 0 && v.Ver >= 0 && v.ValueHash == payload.ValueHash {
 			if Conf.CheckVHash {
 				if v.Ver != 0 {
 					// sync script would be here, e.g. set_raw(k, v, rev=xxx)
